@@ -63,6 +63,11 @@ pub fn exec(op: &str, args: &[&str]) -> String {
             let a = parse_dec(args[0]).expect("a");
             show(&a.with_scale(args[1].parse().unwrap()))
         }
+        "rext" => {
+            // the reference view: BigDecimalRef::to_owned_with_scale (extension is exact, reduction truncates)
+            let a = parse_dec(args[0]).expect("a");
+            show(&a.to_ref().to_owned_with_scale(args[1].parse().unwrap()))
+        }
         "wpext" => {
             let a = parse_dec(args[0]).expect("a");
             show(&a.with_prec(args[1].parse().unwrap()))
@@ -112,6 +117,17 @@ pub fn generate(rng: &mut Rng, tier: &str, shard: usize, nshards: usize, out: &m
         emit(format!("C18\tdigitsbits\t{}\tlo", b), &mut n);
         emit(format!("C18\tdigitsbits\t{}\thi", b), &mut n);
     }
+    // 3b. every scale change of -45..45 digits (the u64 fast paths end at 19/20) and around the other
+    //     power-of-ten algorithm switches, through the owned and the reference view
+    for gap in (-45i64..=45).chain([255i64, 256, 257, 275, 276, 511, 512, 513, 589, 590, 591, 607, 608, 609].into_iter()) {
+        for l in [1usize, 5, 19, 20, 21, 40] {
+            let i = gen_int_len(rng, l);
+            let s = rng.range(-30, 30);
+            let a = dec(i, s);
+            emit(format!("C18\trext\t{}\t{}", show(&a), s + gap), &mut n);
+            emit(format!("C18\twsext\t{}\t{}", show(&a), s + gap.abs()), &mut n);
+        }
+    }
     // 4. random long decimals: digits, normalized with 0..5000 trailing zeros, exact extensions
     let nr = if thorough { 200_000 } else { 20_000 };
     for _ in 0..nr {
@@ -133,6 +149,10 @@ pub fn generate(rng: &mut Rng, tier: &str, shard: usize, nshards: usize, out: &m
             3 => {
                 let ext = if rng.chance(1, 10) { rng.below(5001) } else { gen_ext(rng) as u64 };
                 emit(format!("C18\twpext\t{}\t{}", show(&a), a.digits() + ext), &mut n);
+            }
+            4 if rng.chance(1, 2) => {
+                let ext = if rng.chance(1, 10) { rng.range(-5000, 5000) } else if rng.chance(1, 3) { -gen_ext(rng) } else { gen_ext(rng) };
+                emit(format!("C18\trext\t{}\t{}", show(&a), s + ext), &mut n);
             }
             4 => {
                 let z = dec(BigInt::from(0), s);
